@@ -396,8 +396,24 @@ def setup_pfreq(it, cfg):
     return {"args": {}, "spec": {"vals": vals, "n": n}, "values": [v for t in vals.values() for v in t]}
 
 
+def in_cpufreq_world(node, guards):
+    """the definition of _pslinux.cpu_freq in force on a machine that has the cpufreq sysfs directories: the module-level
+    `if os.path.exists(...)` tests are evaluated (CPython) with exists() true for exactly those paths"""
+    import ast as _ast
+    import types
+    fake_os = types.SimpleNamespace(path=types.SimpleNamespace(exists=lambda p: "cpufreq" in p))
+    for test, pol in guards:
+        try:
+            v = eval(compile(_ast.Expression(test), "<guard>", "eval"), {"os": fake_os, "__builtins__": {}})
+        except Exception:
+            return False
+        if bool(v) != pol:
+            return False
+    return True
+
+
 REGISTRY.add(Contract(
-    "C19", LINUX_PY, "cpu_freq", which=0, name="_pslinux.cpu_freq(sysfs)", setup=setup_pfreq, env=ENV,
+    "C19", LINUX_PY, "cpu_freq", which=in_cpufreq_world, name="_pslinux.cpu_freq(sysfs)", setup=setup_pfreq, env=ENV,
     configs=[{"n": 1}, {"n": 3}, {"n": 12}],
     ensures=["len(result) == n",
              "forall(range(n), lambda i: result[i].current * 1000 == vals[i][0] and result[i].min * 1000 == vals[i][1] "
